@@ -229,6 +229,8 @@ def api_outcome(cfg):
 def check(run):
     import genlib
     genlib.validate_cfg_logic(run, "pair_species", n=run.n(300, 4000))
+    genlib.validate_read_from_parser(run, n=run.n(40, 400))
+    genlib.validate_pair_builder(run, n=run.n(30, 300))
     ops = catalogue()
     run.rule = ("%d malformation / validity operators over 4 well-formed base models (pair with sum/trans/two spline kinds/custom form/table form, EAM with [Species], Finnis-Sinclair, ADP), "
                 "each through Configuration().read()+write() and through the potable entry point; required outcome per operator from the reference manual; "
